@@ -309,6 +309,87 @@ theorem no_handler_no_call (c : Cfg) (start : Nat) (t0 : Int) (ds : List Nat) (k
   rw [sendClckInd_call c a.fn hp, hh] at h
   exact h
 
+/-! ### links attached and detached while the generator runs -/
+
+theorem loopL_cons (c : Cfg) (s : Loop) (d : Nat) (ls : List Nat) (sc : List (Nat × List Nat)) (hp : 0 < c.period) :
+    loopL c s ((d, ls) :: sc) =
+      ({ tickOf c s with sends := (sendClckInd { c with links := ls } s.src).sends } :: (loopL c (next c s d) sc).1,
+       (loopL c (next c s d) sc).2) := by
+  rw [loopL]
+  have hp' : 0 < ({ c with links := ls } : Cfg).period := hp
+  simp only [sendClckInd_next { c with links := ls } s.src hp']
+  have hc : (sendClckInd { c with links := ls } s.src).call = (sendClckInd c s.src).call := by
+    rw [sendClckInd_call _ _ hp', sendClckInd_call _ _ hp]
+  simp only [hc]
+  rfl
+
+/-- **every attached link, at the time of the tick.**  `clck_links` may be modified in place
+between two ticks (a transceiver powered on or off): at tick k the indication goes to exactly the
+links the list holds when that tick fires, in list order — a link attached after `start()` is
+served from the next due frame on, a detached one receives nothing more. -/
+theorem ind_to_links_attached_at_tick (c : Cfg) (hp : 0 < c.period) :
+    ∀ (sc : List (Nat × List Nat)) (s : Loop) (k : Nat) (a : Tick), (loopL c s sc).1[k]? = some a →
+      ∃ d ls, sc[k]? = some (d, ls) ∧
+        a.sends = if a.fn % c.period = 0 then ls.map (fun l => (l, indication a.fn)) else [] := by
+  intro sc
+  induction sc with
+  | nil => intro s k a h; rw [loopL] at h; simp at h
+  | cons x sc ih =>
+    intro s k a h
+    obtain ⟨d, ls⟩ := x
+    rw [loopL_cons c s d ls sc hp] at h
+    cases k with
+    | zero =>
+      simp only [List.getElem?_cons_zero, Option.some.injEq] at h
+      refine ⟨d, ls, rfl, ?_⟩
+      subst h
+      have hp' : 0 < ({ c with links := ls } : Cfg).period := hp
+      have hpay : ∀ fn, payload fn = indication fn := clck_consts.2.2.2.2
+      simp only [sendClckInd_sends _ _ hp', hpay, tickOf]
+      rfl
+    | succ k =>
+      simp only [List.getElem?_cons_succ] at h
+      obtain ⟨d', ls', h1, h2⟩ := ih _ k a h
+      exact ⟨d', ls', by simpa using h1, h2⟩
+
+/-- **the links do not influence the clock.**  When ticks fire, with which frame numbers, what the
+handler is called with and how the worker ends is the same whatever is attached or detached on
+the way: every timing theorem above (`tick_spacing`, `no_drift`, `resync_after_overrun`,
+`fn_sequence`, `handler_once_per_tick`) holds unchanged for a run with changing links. -/
+theorem links_do_not_influence_timing (c : Cfg) (hp : 0 < c.period) :
+    ∀ (sc : List (Nat × List Nat)) (s : Loop),
+      (loopL c s sc).1.map Tick.timing = (loop c s (sc.map Prod.fst)).1.map Tick.timing ∧
+      (loopL c s sc).2 = (loop c s (sc.map Prod.fst)).2 := by
+  intro sc
+  induction sc with
+  | nil => intro s; rw [loopL]; simp only [List.map_nil]; rw [loop]; exact ⟨rfl, rfl⟩
+  | cons x sc ih =>
+    intro s
+    obtain ⟨d, ls⟩ := x
+    rw [loopL_cons c s d ls sc hp]
+    simp only [List.map_cons]
+    rw [loop_cons c s d _ hp]
+    obtain ⟨h1, h2⟩ := ih (next c s d)
+    exact ⟨by simp only [List.map_cons, h1]; rfl, h2⟩
+
+/-- with the list left alone the run is the one of the theorems above -/
+theorem constant_links (c : Cfg) (hp : 0 < c.period) :
+    ∀ (ds : List Nat) (s : Loop), loopL c s (ds.map fun d => (d, c.links)) = loop c s ds := by
+  intro ds
+  induction ds with
+  | nil => intro s; rw [List.map_nil, loopL, loop]
+  | cons d ds ih =>
+    intro s
+    rw [List.map_cons, loopL_cons c s d _ _ hp, loop_cons c s d ds hp, ih]
+    cases c
+    rfl
+
+/-- non-vacuity: link 7 attached before the third tick, link 3 detached before the fourth -/
+example :
+    ((workerL { tTick := Gen.tTickNs, period := 1, links := [3], handler := true } 5 0
+        [(0, [3]), (0, [3]), (0, [3, 7]), (0, [7])]).1.map fun k => k.sends.map Prod.fst)
+      = [[3], [3], [3, 7], [7]] := by decide +kernel
+
 /-- the indication can be parsed back: it ends with its only NUL octet and the digits between
 `"IND CLOCK "` and the NUL are the decimal frame number. -/
 theorem indication_wellformed (fn : Nat) :
